@@ -467,3 +467,23 @@ prop(dict(
     assumptions=COMMON_ASSUME + ["the Estimate clause is decided by enumeration around the wrap structure plus the tick-level model, not by proof",
                                  "tolerances: 1 ns for capture time and offset, 3816 ns (2^-18 s + conversion loss) for Estimate, estimate never later than the send instant"],
 ))
+
+
+# ---------------------------------------------------------------- C07
+prop(dict(
+    id="C07", fam="C07", nondeterministic=True,
+    mc=[("Sequencer.tla", "Sequencer.cfg", {"thorough": {"N": "3", "Ops": "3", "MOD": "4", "Reads": "1"}}),
+        ("Sequencer.tla", "SequencerNoLock.cfg", {}, "expect_violation")],
+    gen=[("SeqGen.tla", "SeqGen.cfg", {"thorough": {"Stride": "1", "NRandom": "10000", "ConcOps": "208000", "Gs": "{2, 4, 16}"}})],
+    trace=("SeqTrace.tla", "SeqTrace.cfg"),
+    shards={"quick": 1, "thorough": 12},
+    timeout={"quick": 900, "thorough": 7000},
+    nontrivial=lambda c: c["kind"] == "concurrent" or c["start"] >= 65533 or c["kind"] == "random",
+    mandatory=["fixed", "fixed_wraps", "random", "concurrent_g2", "concurrent_g4", "concurrent_g16", "concurrent_g16_wraps"],
+    rule="TLC explores every interleaving of the PlusCal model (N clients x Ops calls + a RollOverCount reader, small modulus) and a lock-free specification mutant must violate it; "
+         "on the real code: fixed start values (quick: stride 257 + boundaries, thorough: all 65536) single-threaded, random sequencers, and concurrent runs of 2/4/16 goroutines from "
+         "starts {65530, 0, 32767} with RollOverCount readers (thorough: 208000 calls per run, more than three wraps); each run's hook events are replayed as model steps and every client "
+         "return is matched to a hook event inside its call window; distinct = distinct case records",
+    assumptions=COMMON_ASSUME + ["real schedules are sampled by stress on 16 cores, not enumerated; all interleavings are enumerated on the model only",
+                                 "the verif hook in NextSequenceNumber runs inside the critical section (after the change, before unlock)"],
+))
